@@ -187,6 +187,17 @@ def run_property(mod, pid, tier, seed):
         chk.obligation("probe-compiles", False, str(e)[-2000:])
         chk.violation("probe_broken", {"broken": "correspondence probe no longer compiles against /repo",
                                        "detail": str(e)[-3000:]}, found_input=False)
+    except ProbeCrashed as e:
+        # the implementation (or the probe around it) died on a case: that case is the observation
+        C.log(str(e) + "\n" + (e.out or "")[-3000:])
+        panicked = "panic:" in (e.out or "") or "fatal error:" in (e.out or "") or "signal:" in (e.out or "")
+        chk.obligation("implementation-survives-the-cases", False, str(e))
+        chk.violation("impl_crashed", {
+            "kind": "input", "broken": "the probe process running the implementation exited %s after %d cases" % (e.rc, e.done),
+            "case": e.case, "impl_output": (e.out or "")[-4000:],
+            "oracle_verdict": "the implementation crashed (panic / fatal error) on this case" if panicked
+                              else "the probe stopped without a Go panic in its output (timeout, kill or harness fault)",
+            "cmd": "bin/check %s --replay <this file>" % pid}, found_input=bool(panicked and e.case))
     except C.BuildError as e:
         C.log(str(e))
         chk.obligation("build", False, str(e)[-2000:])
